@@ -127,6 +127,9 @@ func (c02) RunCase(c *core.Ctx) {
 					warmAlt(c.R, b)
 					rec.seq = nil
 				}
+				if rep == 1 && c.R.Intn(3) == 0 {
+					prefillDirty(dirtyFields[c.R.Intn(len(dirtyFields))]) // recycled objects as earlier calls leave them
+				}
 				var o *run.Outcome
 				if mode == ref.Parse {
 					o = run.Parse(b, data, nil)
